@@ -7,8 +7,11 @@ import (
 	"log/slog"
 	"net"
 	"net/netip"
+	"runtime"
 	"sort"
 	"strings"
+	"sync"
+	"sync/atomic"
 	"time"
 
 	"github.com/Jigsaw-Code/outline-ss-server/ipinfo"
@@ -40,11 +43,18 @@ type fakeDB struct {
 	mode    string // answers:<cc> | fails
 	calls   int
 	lastArg net.IP
+	mu      sync.Mutex
+	slow    atomic.Bool // during a concurrent burst: a database lookup yields the processor, as a real mmdb read may
 }
 
 func (d *fakeDB) GetIPInfo(ip net.IP) (ipinfo.IPInfo, error) {
+	d.mu.Lock()
 	d.calls++
 	d.lastArg = ip
+	d.mu.Unlock()
+	if d.slow.Load() {
+		runtime.Gosched()
+	}
 	if d.mode == "fails" {
 		return ipinfo.IPInfo{}, errors.New("db lookup failed")
 	}
@@ -250,6 +260,40 @@ func metricsEngine(rng *Rng, n int, out *Out, args map[string]string) {
 				udps = append(udps, &uconn{id: nextID, m: m, form: f, key: key})
 				out.Op(fmt.Sprintf("mt udpadd u=%d %s key=%s", nextID, addrField(f), hexs([]byte(key))), "ok")
 				out.Stat("op.udpadd."+f.class, 1)
+			case roll < 65:
+				// the first tunnels of one client arrive at the same moment from several goroutines
+				// (TCP handlers and the UDP loop run concurrently); the clock stands still, so every
+				// schedule must leave the state of k sequential opens
+				a := genClientAddr(r)
+				f := classifyAddr(a)
+				allForms = append(allForms, f)
+				key := Pick(r, keys)
+				kk := 2 + r.Intn(3)
+				advanceRef()
+				ms := make([]service.UDPConnMetrics, kk)
+				wait, release := barrier(kk)
+				var wg sync.WaitGroup
+				fdb.slow.Store(true)
+				for g := 0; g < kk; g++ {
+					wg.Add(1)
+					go func(g int) {
+						defer wg.Done()
+						wait()
+						ms[g] = sm.AddUDPNatEntry(a, key)
+					}(g)
+				}
+				release()
+				wg.Wait()
+				fdb.slow.Store(false)
+				for g := 0; g < kk; g++ {
+					nextID++
+					if f.ipKey != "" {
+						depth[ival{f.ipKey, key}]++
+					}
+					udps = append(udps, &uconn{id: nextID, m: ms[g], form: f, key: key})
+					out.Op(fmt.Sprintf("mt udpadd u=%d %s key=%s", nextID, addrField(f), hexs([]byte(key))), "ok")
+				}
+				out.Stat("op.burst", 1)
 			case roll < 68 && len(udps) > 0:
 				u := Pick(r, udps)
 				st := Pick(r, []string{"OK", "ERR_CIPHER", "ERR_ADDRESS_PRIVATE"})
